@@ -60,6 +60,16 @@ theorem execTransferTokens_eq (env : Env) (a b c : Val) (h : Spec.transferTokens
   · simp only [Impl.execTransferTokens, pySplit_fst, pySplit_snd]
   · exact absurd rfl h
 
+theorem execCheckSignature_eq (env : Env) (a b c : Val) (_ : Spec.checkSignatureV env a b c ≠ .stuck) :
+    Impl.execCheckSignature env a b c = Spec.checkSignatureV env a b c := by
+  unfold Impl.execCheckSignature Spec.checkSignatureV
+  split
+  · rfl
+  · rename_i h1
+    split
+    · exact (h1 _ _ _ rfl rfl rfl).elim
+    · rfl
+
 /-- **the unary instructions of extension 2**: the mirror computes the reference value wherever a rule applies -/
 theorem execUn_eq (env : Env) (i : Instr) (a : Val) (h : Spec.unV env i a ≠ .stuck) :
     Impl.execUn env i a = Spec.unV env i a := by
